@@ -56,6 +56,8 @@ pub enum Ty {
     Sc(Sc),
     Opt(Box<Ty>),
     Map(Box<Ty>),
+    /// darling::util::PathList — a fail-fast collection of bare paths
+    PathList,
     /// a derived FromMeta receiver (struct or enum), by id
     Recv(usize),
     BoxRecv(usize),
@@ -375,6 +377,7 @@ impl<'a> Gen<'a> {
         match self.rng.below(8) {
             0 => Ty::Opt(Box::new(Ty::Sc(self.scalar()))),
             1 => Ty::Map(Box::new(Ty::Sc(*self.rng.pick(&[Sc::Str, Sc::U8, Sc::Bool])))),
+            2 if self.rng.chance(1, 3) => Ty::PathList,
             _ => Ty::Sc(self.scalar()),
         }
     }
@@ -413,7 +416,7 @@ impl<'a> Gen<'a> {
                 }
                 match self.rng.below(8) {
                     0 => f.default = Def::Trait,
-                    1 if !matches!(f.ty, Ty::Recv(_) | Ty::BoxRecv(_)) => f.default = Def::Func,
+                    1 if !matches!(f.ty, Ty::Recv(_) | Ty::BoxRecv(_) | Ty::PathList) => f.default = Def::Func,
                     _ => {}
                 }
                 if self.rng.chance(1, 8) {
